@@ -143,7 +143,7 @@ def check(tier, seed, replay=None):
                 rec[key + "2"] = list(bytes.fromhex(vo2[3 * ri + k]["out"]))
             rec["_blobs"] = [bytes.fromhex(vo[3 * ri + k]["out"]) for k in range(3)]
             vrecs.append(rec)
-        vflags, _ = run_trace_spec("Trace_C02", vrecs, "c02v", nproc=1)
+        vflags, _ = run_trace_spec("Trace_C02", vrecs, "c02v", nproc=1 if quick else 12)
         bad = {c for k, c, w in vflags if k == "MISMATCH"}
         for j, c in enumerate(cand):
             if j not in bad:
